@@ -272,7 +272,7 @@ func languageBatch(cfg *sweepCfg, cases []*Case) []Fail {
 			it.fail("readback", "second gocc run: %v", err)
 			continue
 		}
-		if ms := compareTables(it.g, canonicalLR1(it.g), em); len(ms) > 0 {
+		if ms := compareTables(it.g, canonicalLR1(it.g), em, it.c.Spec.lexTokens()); len(ms) > 0 {
 			it.fail("nondeterminism", "tables of a second gocc run differ from the reference although the first run matched: %s: %s", ms[0].kind, ms[0].msg)
 			continue
 		}
